@@ -47,9 +47,9 @@ type unit struct {
 }
 
 type world struct {
-	reps []*rep
-	log  []unit
-	svc  bool // service level: post-states are reported by spostFn
+	reps    []*rep
+	log     []unit
+	svc     bool // service level: post-states are reported by spostFn
 	spostFn func(i int, o J)
 }
 
